@@ -2,6 +2,7 @@
 import ast
 
 from ..core import astutil as A
+from ..core import match as M
 from ..core.model import dotted
 
 META = {
@@ -12,6 +13,23 @@ META = {
 MOD = "pkgcore.util.parserestrict"
 
 
+def _truth(e, atoms, vals):
+    """Truth value of the boolean expression ``e`` under an assignment of its atomic tests.
+    ``atoms``: list of (pattern source, env); ``vals``: one bool per atom.  `x not in y` is read as `not (x in y)`.
+    Raises LookupError on an atomic test that is none of the known ones."""
+    if isinstance(e, ast.BoolOp):
+        vs = [_truth(x, atoms, vals) for x in e.values]
+        return all(vs) if isinstance(e.op, ast.And) else any(vs)
+    if isinstance(e, ast.UnaryOp) and isinstance(e.op, ast.Not):
+        return not _truth(e.operand, atoms, vals)
+    if isinstance(e, ast.Compare) and len(e.ops) == 1 and isinstance(e.ops[0], ast.NotIn):
+        return not _truth(ast.Compare(left=e.left, ops=[ast.In()], comparators=e.comparators), atoms, vals)
+    for (src, env), v in zip(atoms, vals):
+        if M.pat(src).matches(e, env):
+            return v
+    raise LookupError(A.unparse(e))
+
+
 def run(ctx):
     P = ctx.program
     ctx.explanation = META["level"]
@@ -19,46 +37,67 @@ def run(ctx):
     pm = P.func(MOD, "parse_match")
     # ---- R1 glob translation ----------------------------------------------------------------------
     tok = cg.params()[0]
-    pats = [(t, v, st) for t, v, st in A.assignments(cg.node, "pattern")]
+    # the regex text is the local handed to values.StrRegex (found by role, not by spelling)
+    sr = [c for c in A.calls(cg.node) if dotted(c.func) == "values.StrRegex"]
+    ctx.require(len(sr) == 1 and sr[0].args, "convert_glob: StrRegex construction not found")
+    pv = sr[0].args[0].id if isinstance(sr[0].args[0], ast.Name) else None
+    pats = [(t, v, st) for t, v, st in A.assignments(cg.node, pv)] if pv else []
     ctx.require(len(pats) >= 1, "convert_glob: pattern construction not found")
+    PE = {"p": pv}
     first = pats[0][1]
-    esc = isinstance(first, ast.Call) and A.call_attr(first) == "replace" and isinstance(first.func.value, ast.Call) and dotted(first.func.value.func) == "re.escape" and A.unparse(first.func.value.args[0]) == tok
+    em = M.pat(f"re.escape({tok}).replace($$a, $$b)").matches(first)
+    esc = em is not None
     ctx.check("R1", cg, esc, f"escaped-before-star:{A.unparse(first)[:40]}", "the token is regex-escaped before '*' is turned into '.*'",
               f"convert_glob builds the pattern as `{A.unparse(first)}` without re.escape: the legal name characters '.' and '+' become regex metacharacters ('gtk+*' also selects gtkmm, '*stdc++' selects nothing)", node=pats[0][2])
     if esc:
-        a0, a1 = A.try_literal(first.args[0]), A.try_literal(first.args[1])
+        a0, a1 = A.try_literal(em["$a"]), A.try_literal(em["$b"])
         ctx.check("R1", cg, a0 == "\\*" and a1 == ".*", f"star-substitution:{a0!r}->{a1!r}", "the escaped star becomes '.*'")
-    anch = [v for t, v, _ in pats if isinstance(v, ast.JoinedStr)]
+    anch = [st for t, v, st in pats if isinstance(v, ast.JoinedStr)]
     ret = A.returns(cg.node)[-1]
-    anchored = (len(anch) == 1 and A.unparse(anch[0]) == "f'^{pattern}$'") and "match=True" in A.unparse(ret.value) and A.unparse(ret.value).startswith("values.StrRegex(pattern")
+    anchored = (len(anch) == 1 and M.pat("$p = f'^{$p}$'").matches(anch[0], PE) is not None and anch[0].lineno > pats[0][2].lineno
+                and M.pat("return values.StrRegex($p, match=True)").matches(ret, PE) is not None and ret.lineno > anch[0].lineno)
     ctx.check("R1", cg, anchored, "anchored-full-match", "the regex is anchored at both ends and used as a match (whole-string pattern)",
               "the glob regex is no longer anchored at both ends / applied with match semantics: globs match substrings", node=ret)
-    t = A.unparse(cg.node)
-    ctx.check("R1", cg, f"if {tok} in ('*', ''):\n        return None" in t, "star-means-anything", "'*' and '' put no constraint")
-    ctx.check("R1", cg, f"elif '*' not in {tok}:\n        return values.StrExactMatch({tok})" in t, "no-star-exact", "a star-free token is an exact match")
-    ctx.check("R1", cg, "elif not valid_globbing(" in t and "raise ParseError" in t, "alphabet-checked", "tokens outside the glob alphabet are rejected")
+    ctx.check("R1", cg, M.has(cg.node, f"if {tok} in ('*', ''):\n    return None"), "star-means-anything", "'*' and '' put no constraint")
+    ctx.check("R1", cg, M.has(cg.node, f"if '*' not in {tok}:\n    return values.StrExactMatch({tok})"), "no-star-exact", "a star-free token is an exact match")
+    ctx.check("R1", cg, M.has(cg.node, f"if not valid_globbing({tok}):\n    raise ParseError($_)"), "alphabet-checked", "tokens outside the glob alphabet are rejected")
     ctx.floor("R1", 5)
 
     # ---- R2 accumulator ------------------------------------------------------------------------------
-    asg = [st for t_, v, st in A.assignments(pm.node, "restrictions")]
-    ctx.check("R2", pm, len(asg) == 1 and A.unparse(asg[0].value) == "[]", f"accumulator-never-rebound:{len(asg)}", "`restrictions` is created once and only appended/extended",
-              f"parse_match rebinds `restrictions` ({[A.unparse(s)[:50] for s in asg[1:]]}): the slot / sub-slot / repository restrictions split off the query earlier are discarded on that path", node=asg[-1] if asg else pm.node)
+    # the accumulator is the list whose conjunction is returned
+    accs = sorted({m["acc"] for m in M.find(pm.node, "return packages.AndRestriction(*$acc)")})
+    ctx.require(len(accs) == 1, f"parse_match: restriction accumulator not identified ({accs})")
+    acc = accs[0]
+    E = {"acc": acc}
+    om = M.one(pm.node, "$orig = text = text.strip()") or M.one(pm.node, "text = $orig = text.strip()")
+    if om:
+        E["orig"] = om["orig"]
+    asg = [(v, st) for t_, v, st in A.assignments(pm.node, acc)]
+    ctx.check("R2", pm, len(asg) == 1 and isinstance(asg[0][0], ast.List) and not asg[0][0].elts, f"accumulator-never-rebound:{len(asg)}", f"`{acc}` is created once and only appended/extended",
+              f"parse_match rebinds `{acc}` ({[A.unparse(s)[:50] for _, s in asg[1:]]}): the slot / sub-slot / repository restrictions split off the query earlier are discarded on that path", node=asg[-1][1] if asg else pm.node)
     n_ret = 0
     for r in A.returns(pm.node):
         n_ret += 1
         e = A.unparse(r.value)
-        guards = [A.unparse(p.test) for p in A.parents(r) if isinstance(p, ast.If)]
-        ok = e in ("restrictions[0]", "packages.AndRestriction(*restrictions)", "atom.atom(orig_text)") or (e == "r[0]" and any("not restrictions" in g_ for g_ in guards))
+        guards = [p.test for p in A.parents(r) if isinstance(p, ast.If)]
+        ok = r.value is not None and (
+            M.pat("$acc[0]").matches(r.value, E) is not None
+            or M.pat("packages.AndRestriction(*$acc)").matches(r.value, E) is not None
+            or (om is not None and M.pat("atom.atom($orig)").matches(r.value, E) is not None)
+            or (M.pat("$other[0]").matches(r.value, E) is not None and any(M.has(g_, "not $acc", E) for g_ in guards)))
         ctx.check("R2", pm, ok, f"exit-carries-restrictions:{e[:40]}", f"`return {e[:50]}` carries the accumulated restrictions (or the whole original text)",
                   f"parse_match returns `{e}`, dropping the restrictions accumulated for ::repo / :slot / subslot", node=r)
     ctx.check("R2", pm, n_ret >= 5, f"exits:{n_ret}", f"{n_ret} exits inspected")
     fb = [c for c in A.calls(pm.node) if dotted(c.func) == "parse_globbed_version"]
-    ctx.check("R2", pm, len(fb) == 1 and isinstance(getattr(fb[0], "_parent", None), ast.Call) and A.unparse(fb[0]._parent.func) == "restrictions.extend", "fallback-extends", "the globbed-target-with-version fallback extends the accumulated restrictions",
-              "the globbed-version fallback's result does not extend `restrictions`", node=fb[0] if fb else pm.node)
+    ctx.check("R2", pm, len(fb) == 1 and isinstance(getattr(fb[0], "_parent", None), ast.Call) and M.pat("$acc.extend").matches(fb[0]._parent.func, E) is not None, "fallback-extends", "the globbed-target-with-version fallback extends the accumulated restrictions",
+              f"the globbed-version fallback's result does not extend `{acc}`", node=fb[0] if fb else pm.node)
     ctx.floor("R2", 7)
 
     # ---- R3 token consistency ------------------------------------------------------------------------------
-    WANT = {"slot": ("slot", "restricts.SlotDep"), "subslot": ("subslot", "restricts.SubSlotDep")}
+    # the slot / sub-slot tokens by the way they are produced: split off after the last ':', then partitioned at '/'
+    sm = M.one(pm.node, "text, $slot = text.rsplit(':', 1)\n$slot, $_, $subslot = $slot.partition('/')")
+    ctx.require(sm is not None, "parse_match: slot / sub-slot split not found")
+    WANT = {sm["slot"]: ("slot", "restricts.SlotDep"), sm["subslot"]: ("subslot", "restricts.SubSlotDep")}
     n = 0
     for node in A.walk(pm.node):
         if not (isinstance(node, ast.If) and isinstance(node.test, ast.Compare) and isinstance(node.test.ops[0], ast.In) and A.is_const(node.test.left, "*") and isinstance(node.test.comparators[0], ast.Name)):
@@ -67,49 +106,67 @@ def run(ctx):
         if v not in WANT:
             continue
         n += 1
+        role = WANT[v][0]
         conv = [c for c in A.calls(ast.Module(body=node.body, type_ignores=[])) if dotted(c.func) == "convert_glob"]
         attr = [c for c in A.calls(ast.Module(body=node.body, type_ignores=[])) if dotted(c.func) == "packages.PackageRestriction"]
         dep = [c for c in A.calls(ast.Module(body=node.orelse, type_ignores=[])) if (dotted(c.func) or "").startswith("restricts.")]
         outer = next((p for p in A.parents(node) if isinstance(p, ast.If)), None)
-        ok = (len(conv) == 1 and A.unparse(conv[0].args[0]) == v and len(attr) == 1 and A.try_literal(attr[0].args[0]) == WANT[v][0]
-              and len(dep) == 1 and dotted(dep[0].func) == WANT[v][1] and A.unparse(dep[0].args[0]) == v and outer is not None and A.unparse(outer.test) == v)
-        ctx.check("R3", pm, ok, f"token-consistent:{v}", f"`{v}`: tested for '*', converted, attribute '{WANT[v][0]}', exact form {WANT[v][1]} — all on `{v}`",
-                  f"the {WANT[v][0]} handling mixes tokens (glob test on `{v}`, convert_glob({A.unparse(conv[0].args[0]) if conv else '?'}), {dotted(dep[0].func) if dep else '?'}({A.unparse(dep[0].args[0]) if dep else '?'}))", node=node)
+        ok = (len(conv) == 1 and len(conv[0].args) == 1 and A.unparse(conv[0].args[0]) == v and len(attr) == 1 and attr[0].args and A.try_literal(attr[0].args[0]) == role
+              and len(dep) == 1 and dotted(dep[0].func) == WANT[v][1] and len(dep[0].args) == 1 and A.unparse(dep[0].args[0]) == v and outer is not None and A.unparse(outer.test) == v)
+        ctx.check("R3", pm, ok, f"token-consistent:{role}", f"`{v}`: tested for '*', converted, attribute '{role}', exact form {WANT[v][1]} — all on `{v}`",
+                  f"the {role} handling mixes tokens (glob test on `{v}`, convert_glob({A.unparse(conv[0].args[0]) if conv and conv[0].args else '?'}), {dotted(dep[0].func) if dep else '?'}({A.unparse(dep[0].args[0]) if dep and dep[0].args else '?'}))", node=node)
     # a glob test on one token that guards the conversion of another
     for node in A.walk(pm.node):
         if isinstance(node, ast.If) and isinstance(node.test, ast.Compare) and isinstance(node.test.ops[0], ast.In) and A.is_const(node.test.left, "*") and isinstance(node.test.comparators[0], ast.Name):
             v = node.test.comparators[0].id
             for c in A.calls(ast.Module(body=node.body, type_ignores=[])):
-                if dotted(c.func) == "convert_glob" and isinstance(c.args[0], ast.Name) and c.args[0].id != v and getattr(c, "_parent", None) is not None:
+                if dotted(c.func) == "convert_glob" and c.args and isinstance(c.args[0], ast.Name) and c.args[0].id != v and getattr(c, "_parent", None) is not None:
                     inner = next((p for p in A.parents(c) if isinstance(p, ast.If)), None)
                     if inner is node:
-                        ctx.fail("R3", pm, f"glob-test-on-other-token:{v}->{c.args[0].id}", f"whether `{c.args[0].id}` is a glob is decided by `'*' in {v}`: with an exact {v} and a globbed {c.args[0].id} the pattern is wrapped as an exact value and compared literally, selecting nothing", node=node)
+                        rv, rc = WANT.get(v, (v,))[0], WANT.get(c.args[0].id, (c.args[0].id,))[0]
+                        ctx.fail("R3", pm, f"glob-test-on-other-token:{rv}->{rc}", f"whether `{c.args[0].id}` is a glob is decided by `'*' in {v}`: with an exact {v} and a globbed {c.args[0].id} the pattern is wrapped as an exact value and compared literally, selecting nothing", node=node)
     ctx.check("R3", pm, n == 2, f"slot-subslot-sites:{n}", "slot and sub-slot handling inspected")
-    t = A.unparse(pm.node)
-    ctx.check("R3", pm, "r = list(map(convert_glob, tsplit))" in t and "packages.PackageRestriction('category', r[0])" in t and "packages.PackageRestriction('package', r[1])" in t and "tsplit = text.rsplit('/', 1)" in t, "category-package-positions", "left of the last '/' is the category glob, right of it the package glob")
-    ctx.check("R3", pm, "text, repo_id = text.rsplit('::', 1)" in t and "restricts.RepositoryDep(repo_id)" in t and "text, slot = text.rsplit(':', 1)" in t and "slot, _sep, subslot = slot.partition('/')" in t.replace("(slot, _sep, subslot)", "slot, _sep, subslot").replace("(text, repo_id)", "text, repo_id").replace("(text, slot)", "text, slot"), "suffix-splitting", "::repo is split first, then :slot, then /subslot")
+    cp = M.one(pm.node.body, "$ts = text.rsplit('/', 1)\n$r = list(map(convert_glob, $ts))")
+    ctx.check("R3", pm, cp is not None and M.has(pm.node, "packages.PackageRestriction('category', $r[0])", cp.env) and M.has(pm.node, "packages.PackageRestriction('package', $r[1])", cp.env)
+              and not M.has(pm.node, "packages.PackageRestriction('category', $r[1])", cp.env) and not M.has(pm.node, "packages.PackageRestriction('package', $r[0])", cp.env),
+              "category-package-positions", "left of the last '/' is the category glob, right of it the package glob")
+    ctx.check("R3", pm, M.has(pm.node.body, "if '::' in text:\n    text, $repo = text.rsplit('::', 1)\n    $acc.append(restricts.RepositoryDep($repo))\nif ':' in text:\n    text, $slot = text.rsplit(':', 1)\n    $slot, $_, $subslot = $slot.partition('/')", {**E, **sm.env}),
+              "suffix-splitting", "::repo is split first, then :slot, then /subslot")
     ctx.floor("R3", 5)
 
     # ---- R4 blockers ------------------------------------------------------------------------------------------
-    body = [s for s in pm.node.body if not (isinstance(s, ast.Expr) and isinstance(s.value, ast.Constant))]
-    ok = isinstance(body[1], ast.If) and A.unparse(body[1].test) == "'!' in text" and isinstance(body[1].body[0], ast.Raise) and "ParseError" in A.unparse(body[1].body[0])
-    ctx.check("R4", pm, ok, "blockers-rejected-first", "a string containing '!' is rejected before anything is parsed", "parse_match no longer rejects blockers first", node=body[1])
+    # the guard is a top-level statement and nothing but the whitespace strip (and expression statements, which bind
+    # nothing: docstring, logging) runs before it
+    gm = M.find(pm.node.body, "if '!' in text:\n    raise ParseError($_)")
+    guard = next((m.node for m in gm if any(m.node is s for s in pm.node.body)), None)
+    before = pm.node.body[:next(i for i, s in enumerate(pm.node.body) if s is guard)] if guard is not None else []
+    ok = guard is not None and all(isinstance(s, ast.Expr) or (om is not None and s is om.node) for s in before)
+    ctx.check("R4", pm, ok, "blockers-rejected-first", "a string containing '!' is rejected before anything is parsed", "parse_match no longer rejects blockers first", node=guard if guard is not None else pm.node)
     ctx.floor("R4", 1)
 
     # ---- R5 version handling -------------------------------------------------------------------------------------
     gv = P.func(MOD, "parse_globbed_version")
-    tg = A.unparse(gv.node)
-    ctx.check("R5", gv, "op = max((x for x in atom.valid_ops if text.startswith(x)))" in tg, "longest-op", "the longest matching operator is taken")
-    ctx.check("R5", gv, "restrictions.append(restricts.VersionMatch(op, version.group(0)))" in tg and "restrictions.append(parse_match(chunks[0]))" in tg and "chunks = text.rsplit('-', 1)" in tg, "version-and-rest", "version constraint + the remaining glob parsed recursively")
-    ctx.check("R5", gv, tg.count("raise ParseError") == 3, "bad-versions-rejected", "missing/invalid/globbed versions are rejected")
-    ctx.check("R5", pm, "elif text.startswith('*'):\n            raise ParseError" in t, "prefix-glob-with-op-rejected", "an operator with a prefix glob is rejected")
-    sc = [n for n in A.walk(pm.node) if isinstance(n, ast.If) and "text[0] in atom.valid_ops" in A.unparse(n.test)]
+    opm = M.one(gv.node, "$op = max(($x for $x in atom.valid_ops if text.startswith($x)))")
+    ctx.check("R5", gv, opm is not None, "longest-op", "the longest matching operator is taken")
+    ctx.check("R5", gv, M.has(gv.node.body, "$chunks = text.rsplit('-', 1)\n$ver = cpv.isvalid_version_re.match($_)\n$res.append(restricts.VersionMatch($op, $ver.group(0)))\n$res.append(parse_match($chunks[0]))\nreturn $res", {"op": opm["op"]} if opm else None),
+              "version-and-rest", "version constraint + the remaining glob parsed recursively")
+    ctx.check("R5", gv, len([r for r in A.raises(gv.node) if A.raised_name(r) == "ParseError"]) == 3, "bad-versions-rejected", "missing/invalid/globbed versions are rejected")
+    ctx.check("R5", pm, M.has(pm.node, "$ops, text = collect_ops(text)\nif not $ops:\n    ...\nelif text.startswith('*'):\n    raise ParseError($_)"), "prefix-glob-with-op-rejected", "an operator with a prefix glob is rejected")
+    sc = [n for n in A.walk(pm.node) if isinstance(n, ast.If) and M.has(n.test, "text[0] in atom.valid_ops")]
     ctx.require(len(sc) == 1, "parse_match: atom short-cut not found")
     tt = A.unparse(sc[0].test)
-    ctx.check("R5", pm, "slot_globbed" in tt and "'*' in text" in tt, f"glob-anywhere-skips-atom:{tt[:60]}", "the atom short-cut is skipped when ANY position (cat/pkg or slot/sub-slot) holds a glob",
+    # the slot-part glob flag, by role: computed from the token split off after the last ':' BEFORE that token is partitioned
+    sgm = M.one(pm.node, "text, $slot = text.rsplit(':', 1)\n$sg = '*' in $slot\n$slot, $_, $subslot = $slot.partition('/')", sm.env)
+    # the short-cut condition must be equivalent to: operator leads, or no position holds a glob
+    atoms = [("text[0] in atom.valid_ops", None), ("'*' in text", None)] + ([("$sg", {"sg": sgm["sg"]})] if sgm else [])
+    try:
+        equiv = sgm is not None and all(_truth(sc[0].test, atoms, (a, b, c)) == (a or not (b or c)) for a in (False, True) for b in (False, True) for c in (False, True))
+    except LookupError:
+        equiv = False
+    ctx.check("R5", pm, equiv, f"glob-anywhere-skips-atom:{tt[:60]}", "the atom short-cut is skipped when ANY position (cat/pkg or slot/sub-slot) holds a glob",
               f"the atom short-cut is taken under `{tt}`: a glob in the slot/sub-slot next to an exact category/package is handed to the atom parser and rejected ('dev-libs/boost:0/1.6*')", node=sc[0])
-    sg = [v for t_, v, _ in A.assignments(pm.node, "slot_globbed")]
-    ctx.check("R5", pm, len(sg) == 2 and A.unparse(sg[1]) == "'*' in slot", "slot-glob-detected", "the slot part (slot and sub-slot together) is inspected for a glob before it is split")
+    sg = [v for t_, v, _ in A.assignments(pm.node, sgm["sg"])] if sgm else []
+    ctx.check("R5", pm, len(sg) == 2 and A.is_const(sg[0], False) and M.pat("'*' in $slot").matches(sg[1], sm.env) is not None, "slot-glob-detected", "the slot part (slot and sub-slot together) is inspected for a glob before it is split")
     ctx.floor("R5", 6)
 
 
